@@ -87,6 +87,11 @@ pub fn main(args: &[String]) {
                         let marked: Vec<usize> = b.code.iter().enumerate().filter(|(_, c)| has_marker(c)).map(|(i, _)| i + nib).collect();
                         if marked.len() != 1 { viol.push(v("edit-wrong-number-of-new-bodies", "C18", format!("{}: {} functions carry the replacement body", name, marked.len()), wasm)); continue; }
                         let new_ix = marked[0] as u32;
+                        // the closure received the replacement's OWN parameters: a body written as `local.get arg_k; drop` for every argument reads parameters 0..n-1 in order
+                        if use_args { let body = &b.code[new_ix as usize - nib]; let np = sig.0.len();
+                            let got: Vec<String> = body.ops.iter().take(2 * np).map(|o| o.0.clone().unwrap_or_default()).collect();
+                            let want: Vec<String> = (0..np).flat_map(|k| vec![format!("WOp (W_LocalGet {})", k), "WOp (W_Drop)".to_string()]).collect();
+                            if got != want || !body.locals.is_empty() { viol.push(v("edit-body-not-on-its-own-parameters", "C18", format!("{}: the replacement of function {} was built from `local.get arg; drop` for each of its {} arguments but starts with {:?} and declares locals {:?}", name, fidx, np, got, body.locals), wasm)); } }
                         if crate_sig(&b, new_ix) != sig { viol.push(v("edit-signature-changed", "C18", format!("{}: the replacement of function {} has another signature", name, fidx), wasm)); }
                         let names_of = |m: &AMod, ix: u32| -> Vec<String> { m.exports.iter().filter(|e| e.1 == 0 && e.2 == ix).map(|e| e.0.clone()).collect() };
                         if kind == 1 {
